@@ -20,11 +20,25 @@ def instantiate(ex, cls, args, kwargs, st, node):
             yield st1, obj
         return
     if any(k.is_dataclass for k in cls.mro()):
+        yield from dataclass_init(ex, cls, obj, args, kwargs, st, node)
+        return
+    if args or kwargs:
+        raise Unsupported(f"constructor arguments for {cls.name}")
+    yield st, obj
+
+
+def dataclass_init(ex, cls, obj, args, kwargs, st, node, fields_of=None):
+    """the generated __init__ of a kw_only dataclass (modelled, E4): fields from keyword arguments, default
+    factories and defaults in definition order, then the real __post_init__"""
+    from .exec import FuncVal
+
+    fcls = fields_of or cls  # the class whose generated __init__ runs (nearest dataclass in the MRO)
+    if True:
         if args:
             raise Unsupported("positional args to kw_only dataclass")
         kw = dict(kwargs)
         sts = [st]
-        for (name, default, init_, factory), owner in cls.all_fields():
+        for (name, default, init_, factory), owner in fcls.all_fields():
             nxt = []
             for s in sts:
                 p = s.heap[obj.oid]
@@ -41,11 +55,11 @@ def instantiate(ex, cls, args, kwargs, st, node):
                         s1.heap[obj.oid].fields[name] = v
                         nxt.append(s1)
                 elif init_:
-                    ex.need(s, False, "TypeError", node, label=f"missing argument {name} for {cls.name}")
+                    ex.need(s, False, "TypeError", node, label=f"missing argument {name} for {fcls.name}")
                 else:
                     nxt.append(s)
             sts = nxt
-        extra = set(kw) - {f[0][0] for f in cls.all_fields() if f[0][2]}
+        extra = set(kw) - {f[0][0] for f in fcls.all_fields() if f[0][2]}
         if extra:
             for s in sts:
                 ex.need(s, False, "TypeError", node, label=f"unexpected keyword {sorted(extra)} for {cls.name}")
@@ -58,9 +72,6 @@ def instantiate(ex, cls, args, kwargs, st, node):
             else:
                 yield s, obj
         return
-    if args or kwargs:
-        raise Unsupported(f"constructor arguments for {cls.name}")
-    yield st, obj
 
 
 def model_copy(ex, st, v, deep, memo=None):
